@@ -7,6 +7,8 @@ where SafeBody_K is the definition of `Safe` transcribed from the property state
 induction hypothesis `visit(c) returns ==> Safe(c)` is the contract used at the recursive calls.
 Verified text: semantiva/utils/safe_eval.py (_SafeVisitor.*, ExpressionEvaluator.*) and the
 stdlib's ast.NodeVisitor.visit / generic_visit (source of the running interpreter, extracted the same way).
+Bounded tier (labelled bounded): replay/c11_bounded.py - call histories on one evaluator object (state between calls is outside a
+per-call contract), verdicts against a reference acceptor written from the property statement, returned function applied.
 """
 from __future__ import annotations
 import ast, json, os, sys, time
@@ -440,6 +442,8 @@ def main(tier="quick", seed=0):
     if missing:
         run.notes.append(f"vacuity: no accepting path for whitelisted classes {missing}")
         spec.undecided.append(("vacuity", f"no accepting path for {missing}"))
+    # bounded: call histories on one evaluator object and the function compile returns (state between calls is outside a single-call contract)
+    run_bounded(run, PROP, "c11_bounded.py", tier)
     return run.finish(spec, "proof", "structural induction over the interpreter grammar; see DESIGN.md C11")
 
 
